@@ -41,7 +41,7 @@ WALL_PER_FRAME = 1.0           # wall seconds one deserialize() call may take
 CASE_WALL = 3.0                # wall seconds after which a case is aborted (the loop is blocked)
 MAX_DESER = 400000
 KINDS = [('soup-client', 'pre'), ('soup-client', 'post'), ('soup-server', 'pre'), ('soup-server', 'post'), ('fix', 'pre'), ('fix', 'post')]
-PENDING_TRIAGE = os.environ.get('VERIF_PENDING_TRIAGE') == '1'         # classes that show candidate defects of the unchanged library still being triaged (see hostile_gen)
+UNDELIMITED_OBSERVATION = os.environ.get('VERIF_UNDELIMITED_OBSERVATION') == '1'   # for the record only, never part of a verdict (see hostile_gen)
 
 _L = {}
 
@@ -589,8 +589,8 @@ def build_case(rng, kind, phase, bad, style=None):
     case = {'kind': 'hostile', 'sess': kind, 'phase': phase, 'cls': bad['cls'], 'wants': bad['wants'], 'parts': parts, 'cuts': []}
     stream, spans = stream_of(case)
     total = len(stream)
-    if 'PENDING_TRIAGE' in bad['cls']:
-        case['wants'] = bad['len']     # (ii-a): the question under triage is exactly whether a reader may wait for such an announcement
+    if 'UNDELIMITED_OBSERVATION' in bad['cls']:
+        case['wants'] = bad['len']     # the observation is exactly that the reader waits for such an announcement
     elif case['wants'] is not None and case['wants'] > bad['len'] + (total - spans[bad_i][1]) + 400:
         case['wants'] = None           # the announcement cannot be satisfied by what the scenario sends: weak clause only
     if style is None:
@@ -603,19 +603,19 @@ def build_case(rng, kind, phase, bad, style=None):
     return case
 
 
-def malformed_for(rng, kind, follow_len=120, pending=False):
+def malformed_for(rng, kind, follow_len=120, undelimited=False):
     if kind == 'fix':
         good = fix_fields('N', 7, 'hostile')
-        out = HG.fix_malformed(rng, good, FIX_VER, follow_len=follow_len, pending_triage=pending)
-        out += fix_group_classes(rng, pending)
+        out = HG.fix_malformed(rng, good, FIX_VER, follow_len=follow_len, undelimited=undelimited)
+        out += fix_group_classes(rng)
         out.append(HG.fix_garbage(rng))
         return out
-    out = HG.soup_malformed(rng, to_client=(kind == 'soup-client'), pending_triage=pending)
+    out = HG.soup_malformed(rng, to_client=(kind == 'soup-client'))
     out.append(HG.soup_garbage(rng))
     return out
 
 
-def fix_group_classes(rng, pending=False):
+def fix_group_classes(rng):
     """repeating-group count that does not match what follows (message type H7: groups A = 7001 x (7002, 7003), B = 7011 x (7012, 7013))"""
     out = []
     head = fix_fields('H7', 9, 'hostile')
@@ -653,7 +653,7 @@ def gen_cases(ctx, quick):
     rng = ctx.rng
     per_class = 1 if quick else 6
     for kind, phase in KINDS:
-        classes = malformed_for(rng, kind, pending=PENDING_TRIAGE)
+        classes = malformed_for(rng, kind, undelimited=UNDELIMITED_OBSERVATION)
         small = [b for b in classes if b['len'] < 5000 or 'MODEL_BOUNDARY' in b['cls']]
         big = [b for b in classes if b['len'] >= 5000 and 'MODEL_BOUNDARY' not in b['cls']]
         for bad in small:
